@@ -17,6 +17,9 @@ SilentClosure(S) ==
    IN IF nxt \subseteq S THEN S ELSE SilentClosure(S \cup nxt)
 
 Has(r, f) == f \in DOMAIN r
+\* the user interval of a side: the right image is searched on the negated, exchanged left interval (no right disparity given)
+UserMin(o, side) == IF side = "L" THEN o.umin ELSE -o.umax
+UserMax(o, side) == IF side = "L" THEN o.umax ELSE -o.umin
 LabMatches(lab, e) ==
    /\ lab.ev = e.ev
    /\ (lab.ev = "CheckCb" => (lab.idx = e.idx /\ lab.kind = e.kind))
@@ -61,12 +64,13 @@ OpVerdict(k, o) ==
                              /\ ~(o.events[i].rows = ShapeAt(o.base_rows, o.sf, o.events[i].scale)
                                   /\ o.events[i].cols = ShapeAt(o.base_cols, o.sf, o.events[i].scale))}}
                   \cup {<<k, "coarsest_interval", j>> : j \in {i \in 1..Len(o.events) :
-                             o.events[i].ev = "RunCb" /\ "dlo" \in DOMAIN o.events[i] /\ o.events[i].scale = o.dns - 1 /\ o.events[i].side = "L"
-                             /\ ~(CoarseBoundOk(o.umin, o.sf, o.dns - 1, o.events[i].dlo) /\ CoarseBoundOk(o.umax, o.sf, o.dns - 1, o.events[i].dhi))}}
+                             o.events[i].ev = "RunCb" /\ "dlo" \in DOMAIN o.events[i] /\ o.events[i].scale = o.dns - 1 /\ o.events[i].side \in {"L", "R"}
+                             /\ ~(CoarseBoundOk(UserMin(o, o.events[i].side), o.sf, o.dns - 1, o.events[i].dlo)
+                                  /\ CoarseBoundOk(UserMax(o, o.events[i].side), o.sf, o.dns - 1, o.events[i].dhi))}}
                   \cup {<<k, "whole_interval_at_border", j>> : j \in {i \in 1..Len(o.events) :
-                             o.events[i].ev = "RunCb" /\ "blo" \in DOMAIN o.events[i] /\ o.events[i].side = "L" /\ o.events[i].scale >= 0
-                             /\ ~(LevelBoundOk(o.umin, o.sf, o.dns, o.events[i].scale, o.events[i].blo)
-                                  /\ LevelBoundOk(o.umax, o.sf, o.dns, o.events[i].scale, o.events[i].bhi))}}
+                             o.events[i].ev = "RunCb" /\ "blo" \in DOMAIN o.events[i] /\ o.events[i].side \in {"L", "R"} /\ o.events[i].scale >= 0
+                             /\ ~(LevelBoundOk(UserMin(o, o.events[i].side), o.sf, o.dns, o.events[i].scale, o.events[i].blo)
+                                  /\ LevelBoundOk(UserMax(o, o.events[i].side), o.sf, o.dns, o.events[i].scale, o.events[i].bhi))}}
                   \cup (IF ~o.final_shape_ok THEN {<<k, "final_shape", 0>>} ELSE {})
                   \cup (IF ~o.inputs_ok THEN {<<k, "inputs_unmodified", 0>>} ELSE {})
              ELSE {}
